@@ -215,7 +215,9 @@ func (t mvGenTrack) line() string {
 		t.codec, t.rate, t.name, t.lang, mvB01(t.def), t.alt, p.pf, p.res, p.fps)
 }
 
-var mvNames = []string{"", "", "English", "German", "main-audio", "Commentary_1", "audio2"}
+// names are written verbatim into quoted attribute values: backslashes, non-ASCII letters and characters that Go's own
+// %q would escape (U+200B, U+00AD) must come out unchanged
+var mvNames = []string{"", "", "English", "German", "main-audio", "Commentary_1", "audio2", "a\\b\\", "caf\u00e9\u200bVO", "\u65e5\u672c\u8a9e", "soft\u00adhyphen"}
 var mvLangs = []string{"", "", "en", "de", "it", "fr-CA"}
 var mvQueries = []string{"-", "-", "a=b", "x=1&y=2", "_HLS_msn=3&key=v", "token=abc%20def"}
 
